@@ -14,6 +14,7 @@
     (roll child shift axis <shape>) (perm child (p…) <shape>) (reshape child order <shape>)
     (stack (c…) axis <shape>) (concat (c…) axis <shape>)
     (index child ((int k)|(slice a b c)|(arr child) …) <shape>)
+    (indexnc child (…) <shape>)                     an AdvancedIndexInNoncontiguousAxes
     (einsum (((e|r k)…)…) (c…) <shape>) (alias child <shape>) (dict ((key child)…))
     (refused kind) (other kind)
 -/
@@ -86,6 +87,8 @@ def parsePGNode : Sx → Option PGNode
     some ⟨.concat (← cs.asNats?) (← ax.asInt?), ← parseOptShape s⟩
   | .list [.atom "index", c, .list ix, s] => do
     some ⟨.index (← c.asNat?) (← ix.mapM parsePIdx), ← parseOptShape s⟩
+  | .list [.atom "indexnc", c, .list ix, s] => do
+    some ⟨.indexNC (← c.asNat?) (← ix.mapM parsePIdx), ← parseOptShape s⟩
   | .list [.atom "einsum", .list ds, cs, s] => do
     let descr ← ds.mapM fun
       | .list d => d.mapM parseEDescr
